@@ -515,11 +515,17 @@ def run_unit(unit, prop, extra_args=(), kind='proof', timeout=300):
     extracted = []
     info = {'unit': unit, 'drops': drops, 'extracted': extracted}
     os.makedirs(os.path.join(CACHE, 'verus'), exist_ok=True)
+    # `<unit>@allfeatures`: the same unit verified a second time with every wire-relevant cargo feature switched on (rustc --cfg), so that
+    # `#[cfg(feature = ..)]` items inside the extracted code are checked in both extreme configurations
+    template = unit
+    if unit.endswith('@allfeatures'):
+        template = unit[:-len('@allfeatures')]
+        extra_args = list(extra_args) + [a for f in ('get-info-full', 'large-blobs', 'third-party-payment') for a in ('--cfg', 'feature="%s"' % f)]
     try:
-        src = instantiate(unit, drops, extracted)
+        src = instantiate(template, drops, extracted)
     except extract.AnchorLost as e:
         return [Ob('%s::extract' % unit, 'verus', UNDECIDED, detail='extraction anchor lost: %s' % e)], info
-    path = os.path.join(CACHE, 'verus', '%s.rs' % unit)
+    path = os.path.join(CACHE, 'verus', '%s.rs' % unit.replace('@', '_'))
     with open(path, 'w') as f:
         f.write(src)
     info['file'] = path
